@@ -46,7 +46,7 @@ func taintData(bg *bundleGen, t *gTemplate) map[string]interface{} {
 func directC03(g *G, rep *Report) {
 	n := g.N(250, 5000)
 	bg := newBundleGen(g.R.Fork(), bundleOpts{msgs: true, directives: false, calls: true})
-	escaped := "T&lt;&amp;&#34;&#39;&gt;T"
+	escaped := "T&lt;&amp;&quot;&#39;&gt;T"
 	seen := map[string]bool{}
 	for i := 0; i < n; i++ {
 		b := bg.bundle()
@@ -113,7 +113,7 @@ func directC03Modes(g *G, rep *Report) {
 		}
 		return m != "false"
 	}
-	esc := "T&lt;&amp;&#34;&#39;&gt;T"
+	esc := "T&lt;&amp;&quot;&#39;&gt;T"
 	show := func(on bool) string {
 		if on {
 			return esc
